@@ -466,6 +466,9 @@ def _derived_oracle(ctx):
             continue
         def wit(what, **kw):
             return dict(spec=spec, derived=what, violates_property=True, explained_by=None, **kw)
+        # samples traced in batches of different size differ by the Newton stopping tolerance (see c09lib.newton_slack)
+        slack = 1e-6 + max(c09lib.newton_slack({'surfs': lensgen.model_surfaces(o, wl_), 'w': wl_})
+                           for wl_ in [w] + [float(x) for x in rvf.wavelengths])
         # fan: sample k of the first half is the OPD at pupil (0, p_k), of the second half at (p_k, 0)
         lin = np.linspace(-1, 1, n)
         for k in (0, n - 1):
@@ -474,7 +477,7 @@ def _derived_oracle(ctx):
                 d1.x, d1.y = np.array([Px]), np.array([Py])
                 one = Wavefront(o, fields=[H], wavelengths=[w], num_rays=1, distribution=d1).data[0][0][0][0]
                 v = fan.data[0][0][0][idx]
-                if np.isfinite(one) and np.isfinite(v) and abs(one - v) > 1e-6 + 1e-9 * abs(v):
+                if np.isfinite(one) and np.isfinite(v) and abs(one - v) > slack + 1e-9 * abs(v):
                     return wit('OPDFan sample is not the OPD at its pupil coordinate', index=int(idx), fan=float(v), single=float(one))
         d = np.ravel(opd.data[0][0][0])
         if np.all(np.isfinite(d)) and abs(opd.rms() - math.sqrt(float(np.sum(d * d)) / d.size)) > 1e-9 * (1 + abs(opd.rms())):
@@ -484,7 +487,7 @@ def _derived_oracle(ctx):
                 dd = np.ravel(Wavefront(o, [(0, float(Hy))], [wl], 2, 'hexapolar').data[0][0][0])
                 e = math.sqrt(float(np.sum(dd * dd)) / dd.size) if np.all(np.isfinite(dd)) else float('nan')
                 v = float(rvf._wavefront_error[i][j])
-                if math.isfinite(e) and math.isfinite(v) and abs(e - v) > 1e-6 + 1e-9 * abs(v):
+                if math.isfinite(e) and math.isfinite(v) and abs(e - v) > slack + 1e-9 * abs(v):
                     return wit('RmsWavefrontErrorVsField entry is not the RMS at its field/wavelength', i=i, j=j, table=v, expected=e)
         sym = (H[0] == 0 and H[1] == 0)
         gq = GaussianQuadrature(is_symmetric=sym)
